@@ -203,13 +203,13 @@ def index_methods(ctx):
 
 def run(ctx):
     core.load_catii()
-    for _ in range(ctx.n(14, 150)):
+    for _ in range(ctx.n(14, 600)):
         case = A.gen_case(ctx.rng, multi_axis=ctx.rng.random() < 0.3, k=ctx.rng.choice([1, 2, 2]),
                           N=ctx.rng.choice([2, 3, 5, 9]))
         if case["K"] is None and ctx.rng.random() < 0.3:
             case["K"] = None
         check(ctx, case)
-    for _ in range(ctx.n(40, 400)):
+    for _ in range(ctx.n(40, 3000)):
         index_methods(ctx)
 
 
